@@ -10,7 +10,7 @@ def reg(rid, fn, floor=1):
     FLOORS[rid] = floor
 
 
-reg("T1", termination.rule_T1, 14)
+reg("T1", termination.rule_T1, 8)
 reg("T2", termination.rule_T2, 20)
 reg("T3", termination.rule_T3, 4)
 reg("T4", termination.rule_T4, 4)
